@@ -309,3 +309,14 @@ for _c in ("Euler3D", "TauLeapGraph"):
 for _c in ("Euler3D", "EulerGraph"):
     CASES.append(trajectory_layout_case(_c))
 CASES.append(tmax_default_case())
+
+
+# the sampling parameters reach the engine through the Python seam (policy, interval, t_max, requested times, in this order):
+# C04's marshalling cases; the order of the step of the exact stochastic engine (event, time, sampling, end test): C07's case
+from props import C04 as _C04
+for _sp in ("grid", "graph"):
+    CASES.append(_C04.marshal_case(_sp, False))
+if z3 is not None:
+    from props import C07 as _C07
+    for _c in ("Gillespie3D", "GillespieGraph"):
+        CASES.append(_C07.iterate_case(_c, "C09"))
